@@ -15,6 +15,11 @@ COPIES = [("utils", "acryo/_utils.py"), ("backend", "acryo/backend/_bandpass.py"
 
 
 def anchors(a: Anchors):
+    a.pure("filters_have_no_memory",
+           [("acryo/_utils.py", q) for q in ("lowpass_filter", "lowpass_filter_ft", "highpass_filter", "highpass_filter_ft")]
+           + [("acryo/backend/_bandpass.py", q) for q in ("lowpass_filter", "lowpass_filter_ft")]
+           + [("acryo/pipe/_transform.py", q) for q in ("lowpass_filter", "highpass_filter")],
+           "the filter functions do not modify their image argument nor the cached Butterworth weights")
     for tagn, f in COPIES:
         ar = "np.arange" if tagn == "utils" else "backend.arange"
         isar = lambda n, ar=ar: isinstance(n, ast.Call) and ast.unparse(n.func) == ar
